@@ -144,7 +144,9 @@ class Mon:
 
 
 MULTI = {'vm': 'x-a[k=1]+x-b>x-c', 'vn': 'x-a.d+x-b{u}', 'vo': '(x-a>x-b)+x-c[k]', 'vq': 'x-a/+x-b', 'vr': 'x-a>x-b+x-c+x-d',
-         'vs': 'x-a>(x-b>x-c+x-d+x-e+x-f)+x-g>x-h+x-i+x-j', 'vt': 'x-a+x-b+x-c+x-d'}
+         'vs': 'x-a>(x-b>x-c+x-d+x-e+x-f)+x-g>x-h+x-i+x-j', 'vt': 'x-a+x-b+x-c+x-d',
+         # a top-level TEXT node (the doctype line of `!`) is not an element: what is written on the alias goes to the elements beside it
+         'vx': '{<!-- head -->}+x-a>x-b', 'vy': 'x-a+{tail}', 'vz': '{one}+x-a[k=1]+{two}+x-b'}
 MULTI_PAIRS = [
     ('vm.c', 'x-a[k=1].c+x-b.c>x-c'), ('vm[z=2]', 'x-a[k=1][z=2]+x-b[z=2]>x-c'), ('vm{t}', 'x-a[k=1]{t}+x-b{t}>x-c'), ('vm*2', '(x-a[k=1]+x-b>x-c)*2'),
     ('vm>x-d', 'x-a[k=1]+x-b>x-c>x-d'), ('vm>x-d+x-e', 'x-a[k=1]+x-b>x-c>x-d+x-e'), ('x-p>vm^x-q', 'x-p>(x-a[k=1]+x-b>x-c)^x-q'),
@@ -152,6 +154,8 @@ MULTI_PAIRS = [
     ('vo.c', '(x-a.c>x-b)+x-c[k].c'), ('vo>x-d', '(x-a>x-b)+x-c[k]>x-d'), ('vo*2', '((x-a>x-b)+x-c[k])*2'),
     ('vr>x-z', 'x-a>x-b+x-c+x-d>x-z'), ('vr.c>x-z*2', 'x-a.c>x-b+x-c+x-d>x-z*2'), ('vs>x-z', 'x-a>(x-b>x-c+x-d+x-e+x-f)+x-g>x-h+x-i+x-j>x-z'),
     ('vt>x-z', 'x-a+x-b+x-c+x-d>x-z'), ('vt.c', 'x-a.c+x-b.c+x-c.c+x-d.c'), ('x-p>vr>x-z', 'x-p>x-a>x-b+x-c+x-d>x-z'),
+    ('vx.c', '{<!-- head -->}+x-a.c>x-b'), ('vx[z=2]', '{<!-- head -->}+x-a[z=2]>x-b'), ('vx{t}', '{<!-- head -->}+x-a{t}>x-b'), ('vx>x-d', '{<!-- head -->}+x-a>x-b>x-d'),
+    ('vy.c', 'x-a.c+{tail}'), ('vy#i{t}', 'x-a#i{t}+{tail}'), ('vz.c[z=2]', '{one}+x-a[k=1].c[z=2]+{two}+x-b.c[z=2]'), ('x-p>vz.c', 'x-p>{one}+x-a[k=1].c+{two}+x-b.c'), ('vy/', 'x-a/+{tail}'),
     ('vq.c', 'x-a.c/+x-b.c'), ('vq/', 'x-a/+x-b/'), ('vq>x-d', 'x-a/+x-b>x-d'), ('vm.c*2>x-d', '(x-a[k=1].c+x-b.c>x-c>x-d)*2'),
 ]
 
